@@ -244,13 +244,13 @@ func init() {
 		c.ruleAliasAll()
 		c.ruleTypeInfoHelpers()
 		c.ruleNoSyntacticType()
-		c.only([]string{"TYPE-RESOLVE", "NOT-POINTER", "IMMUTABLE-INDEX", "CONSTRUCTOR-INDEX", "TYPES-INDEX", "METHODS-INDEX", "FLOOR"}, func() {
+		c.only([]string{"TYPE-RESOLVE", "ALIAS-RESOLVED", "NOT-POINTER", "IMMUTABLE-INDEX", "CONSTRUCTOR-INDEX", "TYPES-INDEX", "METHODS-INDEX", "FLOOR"}, func() {
 			c.ruleSitesIMM()
 			c.ruleSitesCTOR()
 			c.ruleSitesTONL()
 			c.ruleSitesPKGO()
 		})
-	}, Explanation: "Every assertion from types.Type to a concrete go/types node in product code is made on an un-aliased operand (types.Unalias / Underlying / Func.Type) - five reviewed exceptions in package implements with one line of reason each (two of them part of known finding KF-C05-1; two former entries were wrong and hid defects D15/D16, now repaired); the pointer strip happens on the un-aliased value and its element is un-aliased again (sites and util helpers); use-site types come from TypesInfo, the only spelling-based type reader is the receiver of a method declaration."})
+	}, Explanation: "Every assertion from types.Type to a concrete go/types node in product code is made on an un-aliased operand (types.Unalias / Underlying / Func.Type) - five reviewed exceptions in package implements with one line of reason each (two of them part of known finding KF-C05-1; two former entries were wrong and hid defects D15/D16, now repaired); the pointer strip happens on the un-aliased value and its element is un-aliased again (sites and util helpers); use-site types come from TypesInfo; a @packageonly type reference is resolved through type aliases to the defined type before it is looked up (D18); the only spelling-based type reader is the receiver of a method declaration."})
 }
 
 func (c *Ctx) ruleIgnoreScopeLineUnadj() { c.scopeInline() }
